@@ -110,6 +110,9 @@ func (vc *VC) trExpr(env *SpecEnv, e Expr) Val {
 		if err != nil {
 			u, err2 := strconv.ParseUint(x.V, 0, 64)
 			if err2 != nil {
+				if isLiteralInt(x.V) { // beyond 64 bits: mathematical integers have no bound
+					return intVal(x.V)
+				}
 				vc.specErr("bad number %s", x.V)
 				return intVal("0")
 			}
